@@ -76,6 +76,10 @@ pub struct H3Conn {
     pub dropped: u64,
     /// stream bytes / frames the server sent after the handshake (from quiche's statistics)
     io_error: Option<String>,
+    /// every burst of datagrams carrying an Initial packet this client sent: (the packets carry a retry token, datagrams)
+    pub initial_flights: Vec<(bool, usize)>,
+    /// send the datagrams of every burst of the handshake in reverse order (the tail of the ClientHello arrives first)
+    reverse_handshake_flights: bool,
 }
 
 pub struct ClientOpts<'a> {
@@ -84,6 +88,8 @@ pub struct ClientOpts<'a> {
     pub alpn: &'a [&'a [u8]],
     pub handshake_budget: Duration,
     pub idle_timeout_ms: u64,
+    /// the datagrams of each burst sent before the handshake completes leave in reverse order
+    pub reverse_handshake_flights: bool,
 }
 
 impl Default for ClientOpts<'_> {
@@ -94,6 +100,7 @@ impl Default for ClientOpts<'_> {
             alpn: h3::APPLICATION_PROTOCOL,
             handshake_budget: Duration::from_secs(10),
             idle_timeout_ms: 30_000,
+            reverse_handshake_flights: false,
         }
     }
 }
@@ -143,7 +150,7 @@ impl H3Conn {
         let id = scid(local.port() as u64);
         let conn = quiche::connect(o.sni, &quiche::ConnectionId::from_ref(&id), local, server, &mut config)
             .map_err(|e| ConnectError::Io(e.to_string()))?;
-        let mut c = H3Conn { sock, local, peer: server, conn, h3: None, streams: BTreeMap::new(), goaway: false, body_keep: usize::MAX, rx_after_handshake: 0, deaf_until: None, max_dropped: 100, dropped: 0, io_error: None };
+        let mut c = H3Conn { sock, local, peer: server, conn, h3: None, streams: BTreeMap::new(), goaway: false, body_keep: usize::MAX, rx_after_handshake: 0, deaf_until: None, max_dropped: 100, dropped: 0, io_error: None, initial_flights: Vec::new(), reverse_handshake_flights: o.reverse_handshake_flights };
         let deadline = Instant::now() + o.handshake_budget;
         loop {
             c.flush();
@@ -208,6 +215,9 @@ impl H3Conn {
     }
 
     fn flush(&mut self) {
+        if self.h3.is_none() {
+            return self.flush_handshake();
+        }
         let mut out = [0u8; MAX_DGRAM];
         let mut burst = 0;
         loop {
@@ -234,6 +244,48 @@ impl H3Conn {
                 }
             }
         }
+    }
+
+    /// `flush` while the handshake is in progress: the burst is taken out of quiche first, the datagrams that carry
+    /// an Initial packet are counted (`initial_flights`), and the burst leaves in order or reversed
+    fn flush_handshake(&mut self) {
+        let mut out = [0u8; MAX_DGRAM];
+        let mut burst: Vec<(Vec<u8>, SocketAddr)> = Vec::new();
+        loop {
+            match self.conn.send(&mut out) {
+                Ok((n, info)) => burst.push((out[..n].to_vec(), info.to)),
+                Err(quiche::Error::Done) => break,
+                Err(e) => {
+                    self.io_error = Some(format!("quiche send: {}", e));
+                    break;
+                }
+            }
+        }
+        let initials: Vec<bool> = burst.iter().filter_map(|(d, _)| initial_packet_token(d)).collect();
+        if !initials.is_empty() {
+            self.initial_flights.push((initials.iter().any(|t| *t), initials.len()));
+        }
+        if self.reverse_handshake_flights {
+            burst.reverse();
+        }
+        for (d, to) in burst {
+            match self.sock.send_to(&d, to) {
+                Ok(_) => (),
+                Err(e) if e.kind() == ErrorKind::WouldBlock => break,
+                Err(e) => {
+                    self.io_error = Some(format!("send: {}", e));
+                    break;
+                }
+            }
+        }
+    }
+
+    /// The number of datagrams the ClientHello of the completed handshake took: the first burst of Initial packets
+    /// that carry the retry token (the endpoint answers a token-less Initial with a stateless Retry and the
+    /// client starts over with a new ClientHello), or the very first burst where no retry happened.
+    /// Later bursts of Initial packets are acknowledgements / retransmissions.
+    pub fn client_hello_datagrams(&self) -> usize {
+        self.initial_flights.iter().find(|(token, _)| *token).or(self.initial_flights.first()).map(|(_, n)| *n).unwrap_or(0)
     }
 
     /// Wait at most `max` for one datagram (or the connection's own timer), feed everything that
@@ -417,6 +469,17 @@ impl H3Conn {
     pub fn stream(&self, sid: u64) -> StreamObs {
         self.streams.get(&sid).cloned().unwrap_or_default()
     }
+}
+
+/// `Some(has_token)` if the datagram starts with a QUIC v1 Initial packet (long header, type 0)
+pub fn initial_packet_token(d: &[u8]) -> Option<bool> {
+    if d.len() < 7 || d[0] & 0xf0 != 0xc0 {
+        return None;
+    }
+    let dcid_len = d[5] as usize;
+    let scid_len = *d.get(6 + dcid_len)? as usize;
+    // token length: a variable-length integer; zero is the single byte 0
+    Some(*d.get(7 + dcid_len + scid_len)? != 0)
 }
 
 /// Request head for the tunnel vectors: `CONNECT <authority>` or `<METHOD> http://authority/path`
